@@ -165,14 +165,15 @@ PROPS = {
     "C19": {
         "modules": ["Qvnt.Props.C19"],
         "suites": [suite("c19", dict(count=24, timeout=200), dict(count=600, timeout=3000))],
-        "mismatch_tags": [r"conc"],
+        "mismatch_tags": [r"conc.*"],
         "spec_tags": [r"c19\..*"],
-        "trusted_base": TB_COMMON + ["std::sync::RwLock: many readers xor one writer, not re-entrant, arbitrary choice among waiting acquirers (writer preference is not modelled); rayon: install runs the job on the pool and lets a waiting worker of another pool run other tasks of its own pool"],
-        "assumptions": ASSUME_COMMON + ["PARTIAL by nature: rayon's scheduler, lock fairness and the OS cannot be enumerated; the transition system of Model/Pool.lean is tied to threads.rs by reading, and by the watchdog-supervised stress suite (OS threads, rayon tasks, nested private pool, first-use race; differing thread counts; every task's result compared with the same calls made alone)"],
-        "level_text": "Lean theorems (Props/C19.lean) about the transition-system model of threads.rs after the repair (frames per caller thread, nested frames for workers that start a sibling task while waiting in install): the lock discipline holds in every reachable state; a lock holder is always the top frame of its thread and its next step (the release) is enabled; NO reachable state is stuck unless everything has returned (C19_progress), for any number of threads, any thread counts, any nesting; a measure decreases strictly along every step, so there is no infinite run and every call returns within measure(s) steps. The same model with the read guard held across install (the code before the repair) has a concrete reachable stuck state (C19_old_code_deadlocks), so the model can express the failure. Results equal to the calls made alone follow from ownership (registers are thread-owned) and C08.",
-        "level_note": "Trusted: Lean kernel + standard axioms; the hand-written transition system (not tied by trace conformance: the planned event-log hook was not built).",
-        "technique": "Lean 4 proof over a transition-system model + watchdog-supervised concurrency stress",
-        "design_ref": "DESIGN.md section 5, C19",
+        "trusted_base": TB_COMMON + ["std::sync::RwLock: many readers xor one writer, not re-entrant, arbitrary choice among waiting acquirers (writer preference is not modelled); rayon: install runs the job on the pool and lets a waiting worker of another pool run other tasks of its own pool",
+                                      "event-log hook (cfg qvnt_verif, src/verif.rs `pool`, enabled in src/threads.rs by shadowing RwLock / ThreadPool / ThreadPoolBuilder with logging stand-ins): every event is recorded under one mutex after the real lock was acquired and before it is released, so the logged order is a linearisation of the real one; the hook itself is trusted"],
+        "assumptions": ASSUME_COMMON + ["PARTIAL by nature: rayon's scheduler, lock fairness and the OS cannot be enumerated; the transition system of Model/Pool.lean is tied to threads.rs by trace conformance (every event log the implementation produces in the c19 suite - OS threads, rayon tasks, nested private pool with differing counts, first-use race - must be a run of Pool.Step false that ends with every call returned; C19_trace_sound), and by the watchdog-supervised comparison of every task's result with the same calls made alone; schedules the suite does not produce are covered by the theorems only"],
+        "level_text": "Lean theorems (Props/C19.lean) about the transition-system model of threads.rs after the repair (frames per caller thread, nested frames for workers that start a sibling task while waiting in install): the lock discipline holds in every reachable state; a lock holder is always the top frame of its thread and its next step (the release) is enabled; NO reachable state is stuck unless everything has returned (C19_progress), for any number of threads, any thread counts, any nesting; a measure decreases strictly along every step, so there is no infinite run and every call returns within measure(s) steps. The same model with the read guard held across install (the code before the repair) has a concrete reachable stuck state (C19_old_code_deadlocks), so the model can express the failure. C19_trace_sound: an event log accepted by the executable checker Pool.conforms is a run of that transition system from an initial state, so every state the implementation was observed in is Reachable. Tied to the code by replaying, on every run, the event log of every concurrency scenario (lock acquire / release with the pool size seen, global_install entry, install begin / end, per thread) through Pool.conforms: an install entered while the caller holds the lock, a write lock taken while anyone reads, a stored size the model does not predict, or a call that has not returned at the end is a correspondence failure even when no deadlock happens to manifest. Results equal to the calls made alone follow from ownership (registers are thread-owned) and C08, and are compared on every scenario.",
+        "level_note": "Trusted: Lean kernel + standard axioms; the hand-written transition system, tied to the code by trace conformance through the event-log hook (not by translation).",
+        "technique": "Lean 4 proof over a transition-system model + trace-conformance correspondence check (the implementation's lock / pool event log replayed through the model's step relation, soundness of the replay proved) + watchdog-supervised concurrency stress",
+        "design_ref": "DESIGN.md section 5, C19 and A.4",
     },
     "C09": {
         "modules": ["Qvnt.Props.C09"],
